@@ -250,8 +250,8 @@ func valuesAgree(ts []byte, taints []taint, a, b []uint64) (reason string, toler
 	return "", tolerated
 }
 
-// upper32Clean checks that 32-bit results come back with the upper half of the slot zero on both engines
-// is NOT part of the property (api documents only the low bits) and is therefore not checked.
+// Note: 32-bit results are compared on their low 32 bits only; the upper half of the 64-bit slot is not part of
+// the value (api.DecodeU32 and friends drop it).
 
 func sanitizeSig(s string) string {
 	s = strings.ReplaceAll(s, " ", "_")
